@@ -22,11 +22,11 @@ type Sched struct {
 	seq    int
 
 	// strategy
-	strategy string
-	burst    int
+	strategy  string
+	burst     int
 	lastActor string
-	prio     map[string]int
-	changeAt map[int]bool
+	prio      map[string]int
+	changeAt  map[int]bool
 
 	Steps     int
 	MaxParked int
@@ -152,7 +152,9 @@ func (s *Sched) Run(done func() bool, maxSteps int) string {
 			d := time.Duration(1+s.r.T.Draw(int(s.ClockMax/time.Millisecond)))*time.Millisecond + 3*time.Nanosecond // never lands exactly on a timer of the system
 			s.r.Decision("clock", d.String())
 			s.SimTime += d
+			s.mu.Lock()
 			s.Steps++
+			s.mu.Unlock()
 			time.Sleep(d)
 		} else {
 			s.step()
@@ -161,6 +163,14 @@ func (s *Sched) Run(done func() bool, maxSteps int) string {
 			s.OnStep()
 		}
 	}
+}
+
+// StepCount returns the number of scheduling steps so far; goroutines of the system under test
+// use it to stamp the events of a recorded history (invoke / return of a call).
+func (s *Sched) StepCount() int {
+	s.mu.Lock()
+	defer s.mu.Unlock()
+	return s.Steps
 }
 
 // StepOnce performs one scheduling step if something is parked (after quiescence).
